@@ -2,7 +2,9 @@
 
 Engine H over short histories + engine E over splits: an operation is one
 ``assemble_schur_complement_system(split, inverter, state)`` followed by a dense solve of the
-reduced system and ``expand_schur_complement_solution``. Histories of one operation on a
+reduced system and ``expand_schur_complement_solution`` (called three times on the same
+assembled system: x_p, an unrelated vector, x_p again; first and last result are compared
+with the reference; arguments and returned reduced system must stay bitwise unchanged). Histories of one operation on a
 fresh ``EquationSystem`` enumerate *every* admissible split; histories of two (thorough:
 three) operations on the *same* ``EquationSystem`` enumerate all ordered pairs over a
 history alphabet (all whole-equation/whole-variable splits, some grid-restricted ones, two
@@ -139,13 +141,28 @@ class Run:
         except Exception as e:  # harness
             raise RuntimeError(f"harness: cannot build arguments for {split}: {e!r}")
         state = L.states[op["state"]].copy() if (op["state"] == "s0" or variant % 2) else None  # s1 is also in storage
+        state_before = None if state is None else state.copy()
         try:
             S, rhs = L.es.assemble_schur_complement_system(
                 eq_arg, var_arg, inverter=(_dense_inverter if op["inv"] == "dense" else None), state=state)
             Sd = S.toarray() if hasattr(S, "toarray") else np.asarray(S)
-            xp = np.linalg.solve(Sd, np.asarray(rhs, dtype=float))
-            X = np.asarray(L.es.expand_schur_complement_solution(xp), dtype=float)
-            self.results.append(("ok", X))
+            rhs0 = np.array(rhs, dtype=float, copy=True)
+            xp = np.linalg.solve(Sd, rhs0)
+            xp0 = xp.copy()
+            # the expansion belongs to the *last assembled* system, however often and with
+            # whatever argument it is called: expand x_p, expand something else, expand x_p
+            X = np.asarray(L.es.expand_schur_complement_solution(xp), dtype=float).copy()
+            L.es.expand_schur_complement_solution(2.0 * xp0 + 1.0)
+            X2 = np.asarray(L.es.expand_schur_complement_solution(xp), dtype=float).copy()
+            self.results.append(("ok", X, X2))
+            # purity of the arguments / returned objects
+            if state is not None and not np.array_equal(state, state_before):
+                self.results[-1] = ("impure", "assemble_schur_complement_system modified the state argument")
+            elif not np.array_equal(xp, xp0):
+                self.results[-1] = ("impure", "expand_schur_complement_solution modified its argument")
+            elif not np.array_equal(np.asarray(rhs, dtype=float), rhs0) or not np.array_equal(
+                    S.toarray() if hasattr(S, "toarray") else np.asarray(S), Sd):
+                self.results[-1] = ("impure", "expansion modified the reduced system returned by the assembly")
         except Exception as e:  # noqa
             self.results.append(("exc", repr(e)))
 
@@ -215,7 +232,8 @@ def run_case(case) -> Outcome:
             return
         op = st.hist[-1]
         info = admissible(op)
-        kind, val = st.results[-1]
+        res = st.results[-1]
+        kind = res[0]
         desc = dict(system=list(sysid), history=st.hist)
         cls = "depth%d/%s/%s" % (len(st.hist), op["inv"], op["state"])
         if len(st.hist) >= 2:
@@ -228,21 +246,29 @@ def run_case(case) -> Outcome:
         cls += "/restricted" if restricted else "/whole"
         bad = False
         if kind == "exc":
-            o.violate("Schur complement assembly / expansion raised on an admissible split", error=val, **desc)
+            o.violate("Schur complement assembly / expansion raised on an admissible split", error=res[1], **desc)
+            bad = True
+        elif kind == "impure":
+            o.violate(res[1], **desc)
             bad = True
         else:
             Xr = xref[op["state"]]
-            if val.shape != Xr.shape:
-                o.violate("expanded solution has the wrong size", got_shape=list(val.shape), expected_shape=list(Xr.shape), **desc)
-                bad = True
-            else:
+            worst = 0.0
+            for which, val in (("first expansion", res[1]), ("repeated expansion of the same assembled system", res[2])):
+                if val.shape != Xr.shape:
+                    o.violate("expanded solution has the wrong size", which=which, got_shape=list(val.shape),
+                              expected_shape=list(Xr.shape), **desc)
+                    bad = True
+                    break
                 err = float(np.abs(val - Xr).max() / max(1.0, np.abs(Xr).max()))
+                worst = max(worst, err)
                 if not err <= TOL:
                     o.violate("expanded Schur solution differs from the solution of the full system",
-                              rel_error=err, expected=Xr, got=val, **desc)
+                              which=which, rel_error=err, expected=Xr, got=val, **desc)
                     bad = True
-                else:
-                    cls += "/err<1e-12" if err < 1e-12 else "/err<1e-9"
+                    break
+            if not bad:
+                cls += "/err<1e-12" if worst < 1e-12 else "/err<1e-9"
         if bad:
             cls = "VIOLATION"
         key = (sysid, canon(st)) if not info["diag"] else None
